@@ -253,6 +253,21 @@ Theorem C01_unary_of_constant_raises : forall (V : Type) (bin : binop -> V -> V 
   inst V bin un args (NUn o nm (NConst v)) = IMissing.
 Proof. exact unary_of_constant_raises. Qed.
 
+(* ---------- the arithmetic forms // and % (FloorDivPrior, ModPrior): exact meaning over the rationals ----------
+   floor division and the remainder with the sign of the DIVISOR (Python), not of the dividend (C fmod);
+   a - b as built by the API (a + (-b)) is a - b *)
+From Coq Require Import QArith.
+From PAFC01 Require Import Proofs7.
+Theorem C01_mod_floordiv_Q : forall a b : Q,
+  ~ b == 0 ->
+  a == b * qbin OFloorDiv a b + qbin OMod a b /\
+  (0 < b -> 0 <= qbin OMod a b /\ qbin OMod a b < b) /\
+  (b < 0 -> b < qbin OMod a b /\ qbin OMod a b <= 0).
+Proof. exact mod_floordiv_Q. Qed.
+
+Theorem C01_sub_as_built_Q : forall a b : Q, qbin OAdd a (qun UNeg b) == qbin OSub a b.
+Proof. exact sub_as_built_Q. Qed.
+
 Print Assumptions C01_order.
 Print Assumptions C01_routes.
 Print Assumptions C01_ith_path.
@@ -270,3 +285,5 @@ Print Assumptions C01_unary_of_ith_value.
 Print Assumptions C01_subtraction.
 Print Assumptions C01_unary_prior_at.
 Print Assumptions C01_unary_of_constant_raises.
+Print Assumptions C01_mod_floordiv_Q.
+Print Assumptions C01_sub_as_built_Q.
